@@ -48,7 +48,12 @@ func (ns *namesys) cacheGet(name string) (path.Path, time.Duration, time.Time, b
 }
 
 func (ns *namesys) cacheSet(name string, val path.Path, ttl time.Duration, lastMod time.Time) {
-	if ns.cache == nil || ttl <= 0 {
+	if ns.cache == nil {
+		return
+	}
+	if ttl <= 0 {
+		// Not cacheable, but whatever was cached for this name is now outdated.
+		ns.cache.Remove(name)
 		return
 	}
 
